@@ -873,6 +873,14 @@ def run_route(c):
         out["ref_bcast"] = rb
     out["routes"] = routes
     out["funcs"] = funcs
+    if type(m) is NormalMessage:
+        # oracle table of erfinv for the model: keys by an independent re-computation of the argument, values from scipy
+        tab = {}
+        for r in U:
+            for u in r:
+                a = 1 - 2.0 * (1.0 - float(u))
+                tab[hexf(a)] = hexf(float(special.erfinv(a)))
+        out["erfinv_tab"] = sorted(tab.items())
     # the real exponent / factor of ** , * , / in every representation of one real number
     kv, sv = unhex(c["k"]), unhex(c["s"])
     reps = [("float", float), ("f64", np.float64), ("f32", np.float32), ("0d", lambda v: np.array(v)),
